@@ -447,7 +447,8 @@ fn cumulative_lengths(w: &World, s: &Session, reqs: &[Value]) -> Result<Vec<usiz
 }
 
 fn resolver_alphabet() -> Vec<Sym> {
-    let kinds = [Kind::GetInfo, Kind::DescKnown, Kind::Echo, Kind::EchoVariant, Kind::Fail, Kind::Stream0, Kind::Stream2, Kind::UnknownMethodGen, Kind::NoParams];
+    // Big(1..4): messages of 8 KiB-1 / 8 KiB / 8 KiB+1 / 24 KiB (the bridge copies through 8 KiB buffers)
+    let kinds = [Kind::GetInfo, Kind::DescKnown, Kind::Echo, Kind::EchoVariant, Kind::Fail, Kind::Stream0, Kind::Stream2, Kind::UnknownMethodGen, Kind::NoParams, Kind::Big(1), Kind::Big(2), Kind::Big(3), Kind::Big(4)];
     let mut v = vec![];
     for k in kinds {
         for f in FLAGS {
@@ -474,7 +475,17 @@ fn session_strategy() -> impl Strategy<Value = Session> {
         prop::sample::select(vec![Mode::Resolver, Mode::Resolver, Mode::Connect, Mode::Activate, Mode::InnerBridge]),
         prop::collection::vec((0..ra.len(), 0..ca.len()), 0..8),
         any::<bool>(),
-        prop::option::weighted(0.3, prop::collection::vec(any::<u8>(), 0..300)),
+        prop::option::weighted(0.3, (prop::collection::vec(any::<u8>(), 0..300), 0u8..4).prop_map(|(mut p, big)| {
+            if big == 0 {
+                // more than the 8 KiB copy buffer
+                let base = p.clone();
+                while p.len() < 20_000 {
+                    p.extend_from_slice(&base);
+                    p.push(b'x');
+                }
+            }
+            p
+        })),
         prop::bool::weighted(0.2),
         prop::bool::weighted(0.15),
     )
@@ -562,7 +573,7 @@ pub fn run(args: &Args) -> ! {
         for up in [None, Some(b"hello \0 upgraded world\n".to_vec())] {
             let s = Session {
                 mode,
-                syms: vec![Sym { kind: Kind::Echo, flag: Flag::None }, Sym { kind: Kind::EchoVariant, flag: Flag::None }, Sym { kind: Kind::Stream2, flag: Flag::More }, Sym { kind: Kind::Echo, flag: Flag::Oneway }, Sym { kind: if matches!(mode, Mode::Activate | Mode::InnerBridge) { Kind::DescKnown } else { Kind::GetInfo }, flag: Flag::None }],
+                syms: vec![Sym { kind: Kind::Echo, flag: Flag::None }, Sym { kind: Kind::EchoVariant, flag: Flag::None }, Sym { kind: Kind::Stream2, flag: Flag::More }, Sym { kind: Kind::Echo, flag: Flag::Oneway }, Sym { kind: Kind::Big(4), flag: Flag::None }, Sym { kind: if matches!(mode, Mode::Activate | Mode::InnerBridge) { Kind::DescKnown } else { Kind::GetInfo }, flag: Flag::None }],
                 pipelined: false,
                 upgrade: up,
                 payload_pipelined: false,
